@@ -267,6 +267,13 @@ func Pool() []Block {
 				N("MACRO", "@mi_end").WithParen().WithKids(N("200", "any")),
 			}
 		}},
+		// a macro holding a whole method with its Path, pasted into a URL
+		{Name: "M_item", Kind: "macro", Defines: []string{"macro:@item", "path:/itm"}, Nodes: func() []*Node {
+			return []*Node{
+				N("MACRO", "@item").WithParen().WithKids(N("GET").WithParen().WithKids(N("Path").WithBody("{\n  \"id\": 1\n}"), N("200", "any"))),
+				N("URL", "/itm/{id}").WithParen().WithKids(N("PASTE", "@item")),
+			}
+		}},
 		{Name: "M_nest", Kind: "macro", Defines: []string{"macro:@outer"}, Needs: []string{"macro:@resp"}, Nodes: one(func() *Node {
 			return N("MACRO", "@outer").WithParen().WithKids(N("200", "any"), N("PASTE", "@resp"))
 		})},
